@@ -213,3 +213,26 @@ Proof.
   destruct H as [Hdiv Hg]. intros bx Hin.
   eapply build_boxes_on_grid; eauto. cbn [width]. exact Hdiv.
 Qed.
+(* snap_lw M is THE smallest power of two >= 0.51 * M  (2.0 ** np.ceil(np.log2(0.51 * M))) *)
+Lemma snap_lw_smallest M e' : 1 <= M -> 0 <= e' -> 51 * M <= 100 * 2 ^ e' -> snap_lw M <= 2 ^ e'.
+Proof.
+  intros HM He H. unfold snap_lw. set (c := (51 * M + 99) / 100).
+  assert (1 <= c) as Hc. { unfold c. apply Z.div_le_lower_bound; lia. }
+  assert (c <= 2 ^ e') as Hle.
+  { unfold c. apply Z.lt_succ_r. apply Z.div_lt_upper_bound; lia. }
+  apply Z.pow_le_mono_r; [lia|].
+  apply Z.log2_up_le_pow2; lia.
+Qed.
+
+(* np.round: the result is a nearest integer, and on a tie it is the even one *)
+Lemma round_half_even_tie n d : 0 < d ->
+  let k := round_half_even n d in (2 * n = 2 * d * k + d \/ 2 * n = 2 * d * k - d) -> Z.even k = true.
+Proof.
+  intros Hd. unfold round_half_even.
+  pose proof (Z.div_mod n d ltac:(lia)) as E. pose proof (Z.mod_pos_bound n d Hd) as B.
+  set (q := n / d) in *. set (r := n mod d) in *.
+  destruct (Z.ltb_spec (2 * r) d); [intros [H1|H1]; nia|].
+  destruct (Z.ltb_spec d (2 * r)); [intros [H1|H1]; nia|].
+  destruct (Z.even q) eqn:Eq; intros _; [exact Eq|].
+  rewrite Z.even_add, Eq. reflexivity.
+Qed.
